@@ -168,6 +168,55 @@ theorem create_fails_iff (key : Nat → Int) (ptrs : List Nat) (m : Mem) (hsmall
     have hn : (m.malloc structSize).2.n = m.n + 1 := rfl
     refine ⟨⟨fun _ => Or.inl (by simpa using h1), fun _ => rfl⟩, by omega⟩
 
+/-- a successful `elasticarray_init(k, 8)` allocates exactly the `8 * k` bytes asked for (no buffer for `k = 0`) -/
+theorem eaInit_alloc (k : Nat) (m : Mem) (a : EArray.EA) (m' : Mem)
+    (h : EArray.init k SeqMap.ptrLen m = (some a, m')) : a.alloc = 8 * k ∧ a.size = 8 * k := by
+  have hs := Percival.Proofs.EArray.init_spec k SeqMap.ptrLen m
+  rw [h] at hs
+  have hv : SeqMap.ptrLen.val = 8 := rfl
+  have hk : k * 8 ≤ EArray.SIZE_MAX := hv ▸ hs.2.2.2.1
+  have hsz : a.size = k * 8 := hv ▸ hs.2.2.1
+  have hmod : k * 8 % EArray.SZ = k * 8 := Nat.mod_eq_of_lt (by simp only [SZ_eq, SIZE_MAX_eq] at *; omega)
+  have hdiv : ¬ k > EArray.SIZE_MAX / 8 := by simp only [SIZE_MAX_eq] at *; omega
+  refine ⟨?_, by omega⟩
+  unfold EArray.init EArray.resizeRec at h
+  simp only [hv, hdiv, if_false, hmod] at h
+  split at h
+  · cases h
+  · rename_i m1 _
+    by_cases hk0 : k = 0
+    · subst hk0
+      simp only [EArray.resize, EArray.wantAlloc] at h
+      simp at h
+      rw [← h.1]
+    · have hw : EArray.wantAlloc 0 (k * 8) = k * 8 := by
+        simp only [EArray.wantAlloc]
+        rw [if_pos (by omega)]
+        simp; omega
+      simp only [EArray.resize, hw] at h
+      rw [if_neg (by omega), if_pos (by omega)] at h
+      rcases hr : Mem.realloc m1 ((0 : Nat) == 0) (k * 8) with ⟨ok, m2⟩
+      rw [hr] at h
+      cases ok
+      · simp at h
+      · simp at h; rw [← h.1]; simp; omega
+
+/-- the storage of a created heap is exactly `8 * N` bytes (L2 `hal=`): no buffer for `N = 0` -/
+theorem create_alloc (key : Nat → Int) (ptrs : List Nat) (m : Mem) (ha : HeapA) (m' : Mem)
+    (h : create key ptrs m = (some ha, m')) : ha.alloc = 8 * ptrs.length := by
+  unfold create at h
+  split at h
+  · cases h
+  · rename_i m1 _
+    rcases hi : EArray.init ptrs.length SeqMap.ptrLen m1 with ⟨oa, m2⟩
+    rw [hi] at h
+    cases oa with
+    | none => cases h
+    | some a =>
+      simp only [Prod.mk.injEq, Option.some.injEq] at h
+      rw [← h.1]
+      exact (eaInit_alloc _ _ _ _ hi).1
+
 /-- once the allocator grants what is asked, the call succeeds -/
 theorem create_succeeds_when_granted (key : Nat → Int) (ptrs : List Nat) (m : Mem)
     (hsmall : 8 * ptrs.length ≤ EArray.SIZE_MAX) (hg : Granted m) : (create key ptrs m).1.isSome = true := by
